@@ -203,6 +203,7 @@ int main(int argc, char** argv) {
     if (g_status) g_status[0] = ~0ull;
     if (hf) fclose(hf);
     print_stats(elapsed(), distinct.size());
+    simmem::deactivate();
     return nviol ? 1 : 0;
   }
   fprintf(stderr, "unknown mode %s\n", mode.c_str());
